@@ -7,6 +7,7 @@ import ThruVerif.Driver.PathCmd
 import ThruVerif.Driver.SidecarCmd
 import ThruVerif.Driver.ScanCmd
 import ThruVerif.Driver.AuthCmd
+import ThruVerif.Driver.UrlCmd
 import ThruVerif.Model.Budget
 /-!
 `tvdriver`: one case per input line, one result per output line. The same lines are given to the Go
@@ -44,6 +45,7 @@ def handle (line : String) : String :=
   | "budget" :: ws => handleBudget ws
   | "scan" :: ws => handleScan ws
   | "auth" :: ws => handleAuth ws
+  | "url" :: ws => handleUrl ws
   | "topnames" :: ws => handleTopNames ws
   | "scser" :: ws => handleScSer ws
   | "scload" :: ws => handleScLoad ws
